@@ -149,6 +149,9 @@ class Labware:
         if initial_volumes is None:
             initial_volumes = 0
         initial_volumes = np.array(initial_volumes)
+        if initial_volumes.dtype == object:
+            # e.g. Python integers beyond 64 bit: numpy cannot compare or test them
+            initial_volumes = initial_volumes.astype(float)
         if initial_volumes.shape == ():
             initial_volumes = np.full((rows, columns), initial_volumes)
         else:
